@@ -33,6 +33,14 @@ CHECKS = {
              "ScaledTolerance values (scalar and per component).",
         note=TB + "Integers are compared in float64 by the implementation (after the fix: commits), so the exact stream keeps |v| < 2^53.",
         technique="Coq proof of the predicate model + metamorphic model/implementation correspondence", ref="7 (C10)"),
+    "C11": dict(
+        text="Theorems over all pairs of field lists with distinct names, all filters and all predicate outcomes: name matching "
+             "partitions both sides; every name of either side is reported exactly once; each status is the one the set algebra "
+             "prescribes (compared iff on both sides and selected); verdict iff domain equal and no failed/error entry; outcomes of "
+             "non-compared fields cannot change the result; the callback trace is exactly the compared names, once each. Tied to "
+             "FieldDataComparator/MeshFieldsComparator by T1 truthiness tables and differential runs on tabular and mesh field data.",
+        note=TB + "fnmatch is an oracle (boolean filter tables are handed to the model); names within one data set are distinct.",
+        technique="Coq proof of the comparator model + model/implementation correspondence", ref="7 (C11)"),
 }
 
 ALL = [f"C{i:02d}" for i in range(1, 21)]
